@@ -18,7 +18,8 @@ def ext_value(dotted):
     if dotted in ('numpy.pi', 'math.pi', 'cmath.pi'):
         return PI
     if dotted in ('numpy.inf', 'math.inf'):
-        return Opaque('inf')
+        from .values import INF
+        return INF
     return ExtRef(dotted)
 
 
@@ -700,6 +701,9 @@ def call_ext(it, dotted, args, kwargs):
             v = args[0]
             if isinstance(v, NumTok):
                 return v.value
+            if isinstance(v, str) and v.strip().lower() in ('inf', '+inf', 'infinity'):
+                from .values import INF
+                return INF
             if isinstance(v, str):
                 try:
                     return Rat.const(Fr(v.strip()))
